@@ -68,7 +68,7 @@ func runC07(res *lib.Result, tier string, seed int64, args []string) error {
 		for _, o := range occs {
 			if o.kind == "D" && reads[occLoc(o)] == 0 && o.name != "_" && o.dk == "L" && !libraryAlias(effInit[occLoc(o)]) && effInit[occLoc(o)] != "func" {
 				// a to-be-closed variable is used by leaving its block (documented exemption: VarInfo.IsClose)
-				if l := lines[o.sl-1]; o.sc+len(o.name) <= len(l) && strings.HasPrefix(l[o.sc+len(o.name):], " <close>") {
+				if l := lines[o.sl-1]; byteCol(l, o.sc) >= 0 && strings.HasPrefix(l[byteCol(l, o.sc)+len(o.name):], " <close>") {
 					continue
 				}
 				want["t4@"+occLoc(o)] = true
@@ -134,7 +134,11 @@ func runC07(res *lib.Result, tier string, seed int64, args []string) error {
 					return false
 				}
 				l := lines[o.sl-1]
-				before, after := strings.TrimRight(l[:o.sc], " ("), strings.TrimLeft(l[o.sc+len(o.name):], " )")
+				bc := byteCol(l, o.sc)
+				if bc < 0 {
+					return false
+				}
+				before, after := strings.TrimRight(l[:bc], " ("), strings.TrimLeft(l[bc+len(o.name):], " )")
 				for _, op := range []string{"or", "and", "==", "~="} {
 					if strings.HasSuffix(before, op) || strings.HasPrefix(after, op) {
 						return true
